@@ -596,6 +596,13 @@ class Runner:
     # -- oracle 2 -------------------------------------------------------------------
     def _wkind(self, p: bytes) -> str:
         """Kind of what is at path ``p`` in the directory (no trailing slash)."""
+        parts = p.split(b"/")
+        for i in range(1, len(parts)):
+            try:
+                if stat.S_ISLNK(os.lstat(self.full(b"/".join(parts[:i]))).st_mode):
+                    return "beyond-symlink"  # a leading directory is a symlink: to git the path does not exist
+            except OSError:
+                break
         try:
             st = os.lstat(self.full(p))
         except FileNotFoundError:
@@ -814,6 +821,8 @@ class Runner:
                 what = "entry-left" if p in self._pre_I else "entry-added"
             elif a[1] == w[1]:
                 what, wkc = "mode-not-updated", ""  # same blob, stale mode (x bit or file<->symlink)
+            if opname == "rm_cached":
+                wkc = ""  # what the directory holds at the path is irrelevant for removing an index entry
             elif a[0] != w[0]:
                 what = f"mode-{MODE_KIND.get(w[0], '?')}-as-{MODE_KIND.get(a[0], '?')}"
             else:
